@@ -24,7 +24,8 @@ type c11Handler struct {
 }
 
 type c11Case struct {
-	Passthrough int                 `json:"passthrough"` // 0 configured, 1 zero value, 2 Reconfigure(nil) after NewMiddleware
+	Passthrough int                 `json:"passthrough"`     // 0 configured, 1 zero value, 2 Reconfigure(nil) after NewMiddleware
+	Route       int                 `json:"route,omitempty"` // construction route of a configured middleware (see suite.go)
 	Cfg         CfgLit              `json:"config"`
 	Debug       bool                `json:"debug"`
 	Req         vlib.Req            `json:"request"`
@@ -106,17 +107,20 @@ func c11Judge(k c11Case) *vlib.Failure {
 	switch k.Passthrough {
 	case 1:
 		m = new(cors.Middleware)
-	default:
+	case 2:
 		var err error
-		m, err = cors.NewMiddleware(k.Cfg.Config())
+		m, err = buildVia(k.Route, k.Cfg, k.Debug)
 		if err != nil {
 			return vlib.Failf("configuration of the C11 alphabet rejected: %v", err)
 		}
-		m.SetDebug(k.Debug)
-		if k.Passthrough == 2 {
-			if err := m.Reconfigure(nil); err != nil {
-				return vlib.Failf("Reconfigure(nil) failed: %v", err)
-			}
+		if err := m.Reconfigure(nil); err != nil {
+			return vlib.Failf("Reconfigure(nil) failed: %v", err)
+		}
+	default:
+		var err error
+		m, err = buildVia(k.Route, k.Cfg, k.Debug)
+		if err != nil {
+			return vlib.Failf("configuration of the C11 alphabet rejected (route %q): %v", routeNames[k.Route], err)
 		}
 	}
 	inner := &c11Inner{spec: k.Handler}
@@ -235,11 +239,11 @@ func c11Judge(k c11Case) *vlib.Failure {
 func c11Test(k c11Case) string {
 	return fmt.Sprintf(`package cors_test
 
-// Configuration %s (passthrough kind %d, debug %t); request %s; the wrapped handler sets %v, status %d,
+// Configuration %s (passthrough kind %d, debug %t), built through route: %s; request %s; the wrapped handler sets %v, status %d,
 // body %q; response headers present before the middleware runs: %v.
 // Expectation: the handler runs exactly once (never for a preflight on a configured middleware) with the very
 // same request and writer, and its output reaches the client unchanged.
-`, k.Cfg.GoLiteral(), k.Passthrough, k.Debug, k.Req, k.Handler.Hdr, k.Handler.Status, k.Handler.Body, k.Preset)
+`, k.Cfg.GoLiteral(), k.Passthrough, k.Debug, routeNames[k.Route], k.Req, k.Handler.Hdr, k.Handler.Status, k.Handler.Body, k.Preset)
 }
 
 func checkC11(c *vlib.Ctx) (string, string) {
@@ -257,14 +261,19 @@ func checkC11(c *vlib.Ctx) (string, string) {
 		{Origins: []string{"https://a.example"}, Methods: []string{"PUT", "PATCH", "DELETE"}, RequestHeaders: []string{"X-A", "X-B", "X-C"}, ResponseHeaders: []string{"X-R", "X-S", "X-T"}, MaxAge: 30},
 	}
 	type cd struct {
-		pass int
-		lit  CfgLit
-		dbg  bool
+		pass  int
+		lit   CfgLit
+		dbg   bool
+		route int
 	}
 	var cds []cd
-	cds = append(cds, cd{pass: 1, lit: cfgs[0]}, cd{pass: 2, lit: cfgs[1]}, cd{pass: 2, lit: cfgs[1], dbg: true})
-	for _, l := range cfgs {
-		cds = append(cds, cd{0, l, false}, cd{0, l, true})
+	cds = append(cds, cd{pass: 1, lit: cfgs[0]}, cd{pass: 2, lit: cfgs[1]}, cd{pass: 2, lit: cfgs[1], dbg: true}, cd{pass: 2, lit: cfgs[2], route: 3})
+	for i, l := range cfgs {
+		cds = append(cds, cd{0, l, false, 0}, cd{0, l, true, 0})
+		// every other construction route, spread over the configurations and debug modes
+		for r := 1; r < nRoutes; r++ {
+			cds = append(cds, cd{0, l, (i+r)%2 == 0, r})
+		}
 	}
 	methods := []string{"OPTIONS", "GET", "options", "PUT", "HEAD", "POST"}
 	origins := [][]string{nil, {}, {""}, {"https://a.example"}, {"https://evil.example"}, {"https://a.example", "https://b.example"}}
@@ -298,6 +307,9 @@ func checkC11(c *vlib.Ctx) (string, string) {
 	c.ParRange(prod.Count(), 256, "C11 product", func(i int64) {
 		var tmp [8]int
 		ix := prod.At(i, tmp[:0])
+		if cds[ix[0]].route > 0 && !c.Thorough() && (ix[6]+ix[7])%4 != 0 {
+			return // quick tier: the additional construction routes see every fourth (handler, preset) combination
+		}
 		hdr := map[string][]string{}
 		if v := origins[ix[2]]; v != nil {
 			hdr["Origin"] = v
@@ -311,16 +323,17 @@ func checkC11(c *vlib.Ctx) (string, string) {
 		if v := acrpns[ix[5]]; v != nil {
 			hdr["Access-Control-Request-Private-Network"] = v
 		}
-		k := c11Case{Passthrough: cds[ix[0]].pass, Cfg: cds[ix[0]].lit, Debug: cds[ix[0]].dbg, Req: vlib.Req{Method: methods[ix[1]], Hdr: hdr}, Handler: handlers[ix[6]], Preset: presets[ix[7]]}
+		k := c11Case{Passthrough: cds[ix[0]].pass, Route: cds[ix[0]].route, Cfg: cds[ix[0]].lit, Debug: cds[ix[0]].dbg, Req: vlib.Req{Method: methods[ix[1]], Hdr: hdr}, Handler: handlers[ix[6]], Preset: presets[ix[7]]}
 		ck.Try(k)
 		if k.Passthrough == 0 && k.Req.Method == "OPTIONS" && len(hdr["Origin"]) > 0 && len(hdr["Access-Control-Request-Method"]) > 0 {
 			c.Nontrivial.Add(1)
 		}
 		c.SampleAt(i+1, func() any { return k })
 	})
-	c.States.Add(prod.Count())
-	c.Transitions.Add(prod.Count())
-	c.Set("product_sizes", map[string]int{"config_x_debug": len(cds), "methods": len(methods), "origin_lists": len(origins), "acrm_lists": len(acrms), "acrh": len(acrhs), "acrpn": len(acrpns), "handlers": len(handlers), "presets": len(presets)})
+	c.States.Add(c.Evaluations.Load())
+	c.Transitions.Add(c.Evaluations.Load())
+	c.Set("product_cells_before_quick_tier_thinning", prod.Count())
+	c.Set("product_sizes", map[string]int{"config_x_debug_x_route": len(cds), "methods": len(methods), "origin_lists": len(origins), "acrm_lists": len(acrms), "acrh": len(acrhs), "acrpn": len(acrpns), "handlers": len(handlers), "presets": len(presets)})
 	return levelMC, rule
 }
 
